@@ -1011,6 +1011,7 @@ func (tx *Tx) FindLeafOnDisk(fID int64, rootOff int64, key, newKey []byte) (bn *
 	visited := map[int64]struct{}{rootOff: {}}
 
 	for curr.IsLeaf != 1 {
+		verifYield("findLeafOnDisk.descend")
 		i = 0
 		for i < curr.KeysNum {
 			df, err := NewDataFile(tx.db.getDataPath(fID), tx.db.opt.SegmentSize, tx.db.opt.RWMode)
